@@ -183,6 +183,34 @@ def check(report: Report, repo: Repo) -> None:
     res, raised = run([pu], lr_scale_func=adam, lr=lr, allow_non_unit_scaling_params=True, independent_weight_decay=False)
     ok = isinstance(res, list) and len(res) == 1 and isinstance(res[0], dict) and TM.expr_equal(res[0].get("lr"), lr) is True and not raised
     report.add("R2-errors", f"{cons}::untagged-allowed", ok, "allowed untagged parameter keeps the group lr unscaled", fmt(res), f"[{{lr: {lr}}}]")
+    # a tagged weight of 4 or more dims is an error through scaled_parameters too, whatever the untagged-parameter policy
+    for rname in ("adam", "sgd-none", "sgd-output"):
+        f = rules.get(rname)
+        if f is None:
+            continue
+        for allow in (False, True):
+            p4 = mkparam("weight", 4, None, "p4")
+            res, raised = run([p1, p4], lr_scale_func=f, lr=lr, allow_non_unit_scaling_params=allow, independent_weight_decay=False)
+            ok = (res is BOTTOM and [e["exc"] for e in raised][-1:] == ["ValueError"]) if not isinstance(res, tuple) else None
+            report.add("R2-errors", f"{cons}::weight-ndim4[{rname}]", ok, f"{rname}, allow_non_unit_scaling_params={allow}: a tagged weight with 4 dims must raise ValueError (the allow flag concerns untagged parameters only)", fmt(res)[:200], "raise ValueError")
+    # parameters frozen when the optimizer is built are scaled (and checked) like any other: they may be un-frozen later
+    for rname in ("adam", "sgd-output"):
+        f = rules.get(rname)
+        if f is None:
+            continue
+        pf = mkparam("weight", 2, Dp, "pf")
+        pf.attrs["requires_grad"] = False
+        res, raised = run([pf], lr_scale_func=f, lr=lr, independent_weight_decay=False)
+        if isinstance(res, list) and len(res) == 1 and isinstance(res[0], dict):
+            exp = lr * oracle_factor(rname, "weight", pf.attrs["shape"], Dp)
+            report.add("R3-application", f"{cons}::lr[frozen]", TM.expr_equal(res[0].get("lr"), exp), f"{rname}: a tagged parameter with requires_grad=False gets lr x factor like a trainable one", fmt(res[0].get("lr")), fmt(exp))
+        else:
+            report.add("R3-application", f"{cons}::lr[frozen]", None if isinstance(res, tuple) else False, f"{rname}: frozen tagged parameter: expected one group, got {fmt(res)[:200]}")
+    puf = mkparam(None, 2, None, "puf", tagged=False)
+    puf.attrs["requires_grad"] = False
+    res, raised = run([puf], lr_scale_func=adam, lr=lr)
+    ok = (res is BOTTOM and [e["exc"] for e in raised] == ["ValueError"]) if not isinstance(res, tuple) else None
+    report.add("R2-errors", f"{cons}::untagged-rejected[frozen]", ok, "a frozen untagged parameter is rejected by default like a trainable one", fmt(res)[:200], "raise ValueError")
     # application, float lr: bare iterable and groups with/without own lr
     from ..values import OneShot
 
